@@ -92,6 +92,17 @@ class Results:
         return False
 
 
+def fail_or_gap(R, clause, p, replay=None):
+    """For harnesses that run a SLICE of a function (a loop body from a generic state): an
+    unexpected exception is a failed obligation -- unless it is a NameError/UnboundLocalError,
+    which means the harness could not establish the loop state (the locals of the function
+    were renamed or restructured): then the obligation is undecided, not violated."""
+    if p.kind == "raise" and isinstance(p.value, (NameError, UnboundLocalError)):
+        R.undecided(clause, f"the harness could not establish the state of the loop it steps (locals renamed or restructured?): {p.value!r}")
+    else:
+        R.fail(clause, repr(p.value), replay)
+
+
 def paths_or_undecided(R, clause, paths):
     """True if every path is usable; otherwise records UNDECIDED and returns False"""
     bad = [p for p in paths if p.kind in ("unsupported", "unknown")]
